@@ -134,8 +134,17 @@ func limitVerdict(lc *LimitCase) (msg string, runs map[uint64]limitRun, nb int) 
 	var reference [][]string
 	for i, b := range batches {
 		d := Decode(ref, b.signal, proto.Clone(b.bar).(*colarspb.BatchArrowRecords))
-		if d.Panic != nil || d.Err != nil {
-			batches = batches[:i] // not decodable even without a (small) limit: C01-C04's business
+		if d.Panic != nil {
+			return fmt.Sprintf("limit %d (the default), batch %d: consumer panicked: %s", uint64(70<<20), i, d.Panic), nil, len(batches)
+		}
+		if d.Err != nil {
+			// the default limit is a limit like any other: a refusal must be
+			// recognisable as the memory-limit error (then the stream simply is
+			// too large for the reference and is cut here)
+			if !errors.Is(d.Err, arrow_record.ErrConsumerMemoryLimit) {
+				return fmt.Sprintf("limit %d (the default), batch %d: refused with an error that is not recognisable as the memory-limit error: %v", uint64(70<<20), i, d.Err), nil, len(batches)
+			}
+			batches = batches[:i]
 			break
 		}
 		reference = append(reference, d.Canon)
@@ -160,7 +169,7 @@ func limitVerdict(lc *LimitCase) (msg string, runs map[uint64]limitRun, nb int) 
 	return "", runs, len(batches)
 }
 
-var limitGrid = []uint64{0, 16, 64, 256, 1 << 10, 4 << 10, 16 << 10, 64 << 10, 256 << 10, 1 << 20, 4 << 20, 16 << 20, 70 << 20}
+var limitGrid = []uint64{0, 16, 64, 256, 1 << 10, 4 << 10, 16 << 10, 64 << 10, 256 << 10, 1 << 20, 4 << 20, 16 << 20, 32 << 20, 48 << 20, 70 << 20}
 
 // TestC14: a consumer with a memory limit decodes completely or refuses with
 // the memory-limit error; reported in-use never exceeds the limit; raising the
@@ -171,6 +180,20 @@ func TestC14(t *testing.T) {
 		o := genOptions(t, rec)
 		c, _ := genOptionHistory(t, historyPlan{MinBatches: 1, MaxBatches: 6, Knobs: gen.InDomain()})
 		c.Options = o
+		bigValue := 0
+		if pct(t, "bigvalue", 2) {
+			// one value that needs a single Arrow buffer of 1 ... 33 MiB (power-
+			// of-two boundaries), somewhere in the stream: "all batches and all
+			// limits up to the default 70 MiB"
+			bigValue = rapid.SampledFrom([]int{33 << 20, 32 << 20, 32<<20 - 64, 16 << 20, 1 << 20}).Draw(t, "bigvaluen")
+			at := rapid.IntRange(0, len(c.Batches)).Draw(t, "bigvalueat")
+			sig := rapid.SampledFrom([]string{Logs, Traces, Metrics}).Draw(t, "bigvaluesig")
+			if len(c.Batches) > 0 {
+				sig = c.Batches[0].Signal
+			}
+			bb := Batch{Signal: sig, Synth: fmt.Sprintf("bigvalue/%d", bigValue)}
+			c.Batches = append(c.Batches[:at:at], append([]Batch{bb}, c.Batches[at:]...)...)
+		}
 		lc := &LimitCase{Stream: *c}
 		// limits: the geometric grid plus values around the need measured on
 		// an unlimited consumer
@@ -200,6 +223,9 @@ func TestC14(t *testing.T) {
 		}
 		rec.Label("stream_limit_pairs", len(runs))
 		labels := []string{"batches=" + bucket(nb)}
+		if bigValue > 0 {
+			labels = append(labels, fmt.Sprintf("single_buffer_of_%d_MiB", (bigValue+(1<<19))>>20))
+		}
 		midStream := false
 		for _, r := range runs {
 			if r.firstRefused > 0 && r.firstRefused < nb {
